@@ -241,3 +241,65 @@ def buckets_sum():
     v2 = z3.Store(v, k1, v[k1] + t)
     return [("only-the-bucket-of-the-key-changes", z3.Implies(k1 != k2, v2[k2] == v[k2])),
             ("it-changes-by-the-term", v2[k1] == v[k1] + t)]
+
+
+# --- Obj.symmetry -------------------------------------------------------------------
+# The symmetry of a single object is the symmetry of the one-term expression made of
+# the WHOLE object (base and exponent: an even power of a bra-ket antisymmetric tensor
+# is bra-ket symmetric) in which the selected indices are the target indices.
+@register
+class ObjSymmetry(Contract):
+    key = "adcgen.expr_container:Obj.symmetry"
+    props = ["C10"]
+    loops = {}
+
+    def setup(self, vc):
+        oc = vc.choose(2, "only_contracted")
+        ot = vc.choose(2, "only_target")
+        kind = vc.choose(3, "object")    # tensor with indices / number / NonSymmetricTensor
+        whole = Struct("SympyTok", what="object-with-exponent", number=kind == 1, nonsym=kind == 2)
+        base = Struct("SympyTok", what="base", number=kind == 1, nonsym=kind == 2)
+        C.STRUCT_ATTR[("SympyTok", "is_number")] = lambda ip, o: o.f["number"]
+        C.STRUCT_ISINSTANCE["SympyTok"] = lambda ip, v, cls: v.f["nonsym"]
+        term_ = Struct("TermOfObj", contracted=Struct("IdxSel", which="contracted indices of the term"),
+                       target=Struct("IdxSel", which="target indices of the term"))
+        C.STRUCT_ATTR[("TermOfObj", "contracted")] = lambda ip, o: o.f["contracted"]
+        C.STRUCT_ATTR[("TermOfObj", "target")] = lambda ip, o: o.f["target"]
+        me = Struct("ObjArg", sympy=whole, base=base, term=term_,
+                    idx=Struct("IdxSel", which="indices of the object"))
+        for f in ("sympy", "base", "term", "idx"):
+            C.STRUCT_ATTR[("ObjArg", f)] = (lambda f: lambda ip, o: o.f[f])(f)
+        # a fresh dict on every access, like Container.assumptions
+        C.STRUCT_ATTR[("ObjArg", "assumptions")] = lambda ip, o: PDict({"real": vc.ghost["_real"],
+                                                                         "sym_tensors": "SYM", "antisym_tensors": "ANTI"})
+        vc.ghost["_real"] = bool(vc.choose(2, "real"))
+
+        def expr_model(ip, a, k):
+            if len(a) != 1:
+                raise Unsupported("Expr(...) with other than one positional argument")
+            return Struct("ProbeExpr", of=a[0], kw=dict(k))
+        C.CLASS_MODELS["adcgen.expr_container:Expr"] = expr_model
+        C.STRUCT_ATTR[("ProbeExpr", "terms")] = lambda ip, o: PList([Struct("ProbeTerm", of=o.f["of"], kw=o.f["kw"])])
+        C.STRUCT_METHODS[("ProbeTerm", "symmetry")] = lambda ip, o, a, k: Struct(
+            "SymmetryOf", of=o.f["of"], kw=o.f["kw"], args=tuple(a), flags=dict(k))
+        return {"self": me, "only_contracted": bool(oc), "only_target": bool(ot)}
+
+    def raises(self, vc, a):
+        return [("Inputerror", a["only_contracted"] and a["only_target"])]
+
+    def post(self, vc, a, result):
+        me = a["self"].f
+        if me["sympy"].f["number"] or me["sympy"].f["nonsym"]:
+            return [("numbers-and-non-symmetric-tensors-have-no-symmetry",
+                     isinstance(result, PDict) and len(result.d) == 0)]
+        sel = me["term"].f["contracted"] if a["only_contracted"] else \
+            me["term"].f["target"] if a["only_target"] else me["idx"]
+        ok = isinstance(result, Struct) and result.cls == "SymmetryOf"
+        return [("symmetry-of-the-whole-object-including-its-exponent", ok and result.f["of"] is me["sympy"]),
+                ("the-selected-indices-are-the-target-indices-of-the-probe",
+                 ok and result.f["kw"].get("target_idx") is sel),
+                ("the-probe-keeps-the-assumptions-of-the-object",
+                 ok and {k: v for k, v in result.f["kw"].items() if k != "target_idx"}
+                 == {"real": vc.ghost["_real"], "sym_tensors": "SYM", "antisym_tensors": "ANTI"}),
+                ("only-the-target-indices-of-the-probe-are-permuted",
+                 ok and result.f["args"] == () and result.f["flags"] == {"only_target": True})]
